@@ -565,10 +565,13 @@ def run(ctx):
     def size(i):
         return sum(abs(a[1]).bit_length() if a[0] == "i" else 64 for a in cases[i][1])
     reported_idx = set()
+    reported_ops = set()
     for cls, lst in sorted(flagged.items()):
         i, exp = min(lst, key=lambda t: (size(t[0]), t[0]))
         op, args = cases[i]
         reported_idx.add(i)
+        if ":" in cls:
+            reported_ops.add((cls.split(":")[0], cls.split(":", 1)[1]))
         ctx.violation(dict(describe(op, args, obs[i], exp), **{"class": cls.split(":")[0], "broken": "property oracle", "witnesses_in_class": len(lst)}))
     for i in (0, len(cases) // 3, len(cases) // 2, len(cases) - 1):
         ctx.sample(describe(cases[i][0], cases[i][1], obs[i]))
@@ -621,7 +624,10 @@ def run(ctx):
         i = chosen[j]
         op, args = cases[i]
         r = oracle(op, args, obs[i])
-        if r is not None and r[0] in ("other", "panic-other") and i not in reported_idx:
+        if r is not None and r[0] in ("other", "panic-other"):
+            if i in reported_idx or (r[0], op) in reported_ops:
+                continue                     # this failing input (or one of the same operator) is already reported by the oracle pass
+            reported_ops.add((r[0], op))
             ctx.violation(dict(describe(op, args, obs[i], r[1]), **{"class": r[0], "broken": "correspondence C07.Harness.chk"}))
         else:
             ctx.violation(dict(describe(op, args, obs[i]), **{"broken": "correspondence C07.Harness.chk: the Coq model and the implementation differ on this input"
